@@ -679,6 +679,75 @@ def r04f(rep, F):
     rep.require_count('R04f', 'parent re-assignments with cost bookkeeping', n, 4)
 
 
+TWOWAY_EXCEPTIONS = {
+    ('ompl::geometric::STRRTstar::pruneGoalTree', 'c'): 'the children vector is copied wholesale to the re-created node (xmotion->children = old->children) '
+                                                      'and each child is then pointed at it',
+    ('ompl::geometric::LBKPIECE1::isPathValid', 'reAdd'): 'a motion detached earlier by removeMotion (which erases it from its parent) is re-attached',
+}
+
+
+def r04g(rep, F):
+    rep.rule('R04g', 'tree links are two-way (node types with both `parent` and `children`): every X->parent = P (P non-null) is matched in the '
+                     'same function, in the enclosing block or later, by a push of X onto a children list (P->children.push_back(X) or '
+                     'X->parent->children.push_back(X)); and when X is an existing node (not created by `new` in this function) the same '
+                     'block detaches it from its old parent first (removeFromParent(X)).  Cost propagation (updateChildCosts) and pruning '
+                     'walk the children lists: a one-way link leaves descendants with stale costs or unreachable for freeing')
+    recs = {name for name, rs in F.records.items() if {'parent', 'children'} <= {fl['name'] for fl in rs[0].get('fields', [])}}
+    n = 0
+    for f in F.functions:
+        if not f.body or '/planners/' not in f.file:
+            continue
+        fresh = set()
+        for x in f.walk():
+            if x['k'] == 'DeclStmt':
+                for d in x.get('decls', []):
+                    if d.get('init') and any(y['k'] == 'CXXNewExpr' for y in f.walk(d['init'])):
+                        fresh.add('%s#%d' % (d['name'], d['did']))
+            if x['k'] == 'BinaryOperator' and x.get('op') == '=' and any(y['k'] == 'CXXNewExpr' for y in f.walk(x['ch'][1])):
+                k_ = key(f, x['ch'][0])
+                if k_:
+                    fresh.add(k_)
+        pushes = [(f.line(c), f.fp(args(f, c)[0])) for c in f.walk() if (c.get('callee') or '').endswith('::push_back') and args(f, c) and
+                  'children' in f.fp(c['ch'][0])]
+        for x in f.walk():
+            if x['k'] != 'BinaryOperator' or x.get('op') != '=':
+                continue
+            t = f.strip(x['ch'][0])
+            if t is None or t['k'] != 'MemberExpr' or t.get('name') != 'parent' or (t.get('q') or '').rsplit('::', 1)[0] not in recs:
+                continue
+            r = f.strip(x['ch'][1])
+            if r is not None and r['k'] in ('CXXNullPtrLiteralExpr', 'GNUNullExpr'):
+                continue
+            basefp = f.fp(t['ch'][0])
+            basename = re.sub(r'#\d+', '', basefp)
+            if (f.name, basename) in TWOWAY_EXCEPTIONS:
+                rep.note('R04g exception %s %s: %s' % (f.name, basename, TWOWAY_EXCEPTIONS[(f.name, basename)]))
+                continue
+            probs = []
+            blk0 = next((a for a in f.ancestors(x['id']) if a['k'] == 'CompoundStmt'), None)
+            from_line = f.line(blk0) if blk0 else f.line(x)
+            if not any(ln >= from_line and fp_ == basefp for ln, fp_ in pushes):
+                probs.append('%s->parent is set but %s is never pushed onto a children list afterwards' % (basename, basename))
+            bk = key(f, t['ch'][0])
+            if bk is None or bk not in fresh:
+                blk = next((a for a in f.ancestors(x['id']) if a['k'] == 'CompoundStmt'), None)
+                det = [c for c in f.walk(blk['id']) if (c.get('callee') or '').endswith('removeFromParent') and args(f, c) and
+                       f.fp(args(f, c)[0]) == basefp and f.line(c) <= f.line(x)] if blk else []
+                if not det and bk is not None and bk not in fresh and not _is_param_fresh(f, bk):
+                    probs.append('%s is an existing node but is not detached from its old parent (removeFromParent) before it is re-parented' % basename)
+                elif not det and bk is None:
+                    probs.append('%s is an existing node but is not detached from its old parent (removeFromParent) before it is re-parented' % basename)
+            n += 1
+            rep.add('R04g', f.name, 'two-way-link:%s@%d' % (basename, len([1 for o in rep.obl if o['rule'] == 'R04g' and o['function'] == f.name])),
+                    not probs, f.where(x), 'child list updated%s' % ('' if (bk in fresh) else ', old link removed') if not probs else '; '.join(probs))
+    rep.require_count('R04g', 'parent assignments in two-way trees', n, 9)
+
+
+def _is_param_fresh(f, bk):
+    """locals that are not created by `new` here but are scratch / new nodes by contract: none today"""
+    return False
+
+
 def run(rep):
     F = facts.load_units(UNITS)
     rep.units.update(UNITS)
@@ -688,3 +757,4 @@ def run(rep):
     r04c(rep, F)
     r04d(rep, F)
     r04f(rep, F)
+    r04g(rep, F)
